@@ -177,7 +177,7 @@ pub fn gen(idx: u64, rng: &mut Rng, _tier: Tier) -> Scn {
     if objs.iter().all(|o| o.after.is_some()) {
         objs[0].after = None;
     }
-    let s = workload(
+    let mut s = workload(
         queues,
         rng.range(1, 4) as u8,
         rng.chance(0.5),
@@ -185,6 +185,11 @@ pub fn gen(idx: u64, rng: &mut Rng, _tier: Tier) -> Scn {
         rng.next_u64(),
         if rng.chance(0.5) { None } else { Some(rng.range(1, 7) as u32) },
     );
+    // set_complete(): later adds are refused, the scheduling of what is queued does not change
+    if rng.chance(0.08) {
+        let when = if rng.chance(0.5) { When::AtUs(0) } else { When::AfterPkt(rng.range(1, 60)) };
+        s.ops.push(TimedOp { when, op: Op::SetComplete });
+    }
     Scn { sender: s }
 }
 
